@@ -39,8 +39,25 @@ def runs(draw, tier):
          "logger": draw(st.one_of(st.none(), st.fixed_dictionaries({"period": st.integers(1, 4), "custom": st.booleans()}))),
          "second_run": draw(st.booleans()), "log": draw(st.booleans()), "stop_in_batch": draw(st.booleans()), "verbose": draw(st.booleans()),
          "inspect_after_clear": draw(st.booleans()), "third_run_no_clear": draw(st.booleans()), "decoy_shared_metrics": draw(st.booleans()),
-         "third_from_last": draw(st.booleans()), "second_len": draw(st.sampled_from(["same", "fixed3", "same_range", "same_range"]))}
+         "third_from_last": draw(st.booleans()), "second_len": draw(st.sampled_from(["same", "fixed3", "same_range", "same_range"])),
+         "aborted_first": draw(st.integers(0, 2)) == 0, "abort_at": draw(st.integers(0, 3)), "abort_skip": draw(st.integers(0, 1))}
+    if draw(st.integers(0, 15)) == 0:
+        # long time axis: histories of 70 to 300 evaluations (period 1 in half of these cases), with and without a log file
+        c["E"] = c["se"] + draw(st.sampled_from([70, 262, 300]))
+        c["stop_at"] = None
+        if draw(st.booleans()):
+            c["metric_periods"] = [1 for _ in c["metric_periods"]]
+            c["obs_period"] = 1 if c["obs_period"] is not None else None
+        if c["saver"] and draw(st.booleans()):
+            c["saver"] = None
     return c
+
+
+class _Boom(RuntimeError):
+    pass
+
+
+BOOM = {"epoch": None, "cur": None, "seen": 0, "skip": 0}
 
 
 def psum(s):
@@ -48,6 +65,14 @@ def psum(s):
 
 
 def pnorm(s, **kw):
+    if BOOM["epoch"] is not None and BOOM["cur"] == BOOM["epoch"]:       # a metric that fails once, in one evaluation of one evaluator
+        BOOM["seen"] += 1
+        if BOOM["seen"] == BOOM["skip"] + 1:
+            raise _Boom("metric failed")
+    return pnorm_raw(s)
+
+
+def pnorm_raw(s, **kw):
     return float(sum((p.data ** 2).sum() for net in s.networks for p in getattr(s, net).parameters())) ** 0.5
 
 
@@ -102,7 +127,8 @@ def check(c):
             record["started"].append(e)
         def on_epoch_end(self, s, e):
             record["epochs"].append(e)
-            record["metrics"][e] = {"sum": plain_sum(s), "norm": pnorm(s), "scaled": scaled(s, scale=2.5)}
+            BOOM["cur"] = e
+            record["metrics"][e] = {"sum": plain_sum(s), "norm": pnorm_raw(s), "scaled": scaled(s, scale=2.5)}
             record["params"][e] = params_of(s)
             if c["obs_period"] is not None:
                 torch.manual_seed(1000 + e)
@@ -154,16 +180,9 @@ def check(c):
                     f"epochs {record['started']} were started but epoch-end (where periodic callbacks act) fired only for {record['epochs']}")
             return list(record["epochs"])
 
-        ran = one_run(c["se"], c["E"])
-        planned = list(range(c["se"], c["E"] + 1))
-        if c["stop_at"] is not None:
-            planned = [e for e in planned if e <= max(c["stop_at"], c["se"])][: None]
-        require(ran == planned, "harness:epochs", f"run covered epochs {ran}, expected {planned}")   # C12's business; a sanity anchor here
-        cut = len(ran) < len(range(c["se"], c["E"] + 1))
-
-        def verify_metrics(ran, csv_rows_before):
+        def verify_metrics(ran, csv_rows_before, per=None):
             for p, metrics, log, me in mes:
-                S = [e for e in ran if e % p == 0]
+                S = [e for e in ran if e % p == 0] if per is None else per[id(me)]
                 require(len(me) == len(S), "metric:len", f"MetricEvaluator(period {p}) recorded {len(me)} evaluations over epochs {ran}, expected {len(S)} (at {S})")
                 require(list(me.epochs) == S, "metric:epochs", f"MetricEvaluator.epochs {list(me.epochs)} != scheduled epochs {S}")
                 require(me.names == list(metrics.keys()), "metric:names", f"names {me.names}")
@@ -186,11 +205,11 @@ def check(c):
                     require(body == want_rows, "metric:csv-rows", f"CSV rows {body} != {want_rows}")
                     csv_rows_before[log] = csv_rows_before.get(log, 0) + len(S)
 
-        def verify_obs(ran, csv_rows_before):
+        def verify_obs(ran, csv_rows_before, per=None):
             if oe is None:
                 return
             p = c["obs_period"]
-            S = [e for e in ran if e % p == 0]
+            S = [e for e in ran if e % p == 0] if per is None else per[id(oe)]
             require(len(oe) == len(S) and list(oe.epochs) == S, "observable:schedule", f"ObservableEvaluator(period {p}) evaluated at {list(oe.epochs)}, expected {S}")
             require(oe.names == [o.name for o in obs], "observable:names", f"names {oe.names}")
             for o in obs:
@@ -217,6 +236,55 @@ def check(c):
                 csv_rows_before[oe.log] = csv_rows_before.get(oe.log, 0) + len(S)
 
         rows_before = {}
+        BOOM.update(epoch=None, cur=None, seen=0)
+        if c.get("aborted_first") and (mes or oe is not None):
+            # after an exception: an earlier run in which a metric raises during one evaluation (the exception leaves fit() and is caught by the
+            # caller).  The records hold exactly the evaluations that completed: evaluators ahead of the failing one in the callback list have
+            # that epoch, the failing one and everything behind it have not
+            e_star, E_ab = c["se"] + c["abort_at"], c["se"] + 3
+            record.update(epochs=[], started=[], metrics={}, stats={}, params={}, initial=None)
+            BOOM.update(epoch=e_star, cur=None, seen=0, skip=c["abort_skip"])
+            raised = False
+            try:
+                state.fit(data, epochs=E_ab, pos_batch_size=2, lr=0.1, starting_epoch=c["se"], callbacks=[Rec()] + [m[3] for m in mes] + ([oe] if oe is not None else []), **fitkw)
+            except _Boom:
+                raised = True
+            finally:
+                BOOM.update(epoch=None, cur=None, seen=0)
+            state.stop_training = False
+            done = {id(m[3]): [] for m in mes}
+            if oe is not None:
+                done[id(oe)] = []
+            stop_ = False
+            for e_ in range(c["se"], E_ab + 1):
+                seen_ = 0
+                for p_, _, _, me_ in mes:
+                    if e_ % p_ == 0:
+                        if e_ == e_star:
+                            seen_ += 1
+                            if seen_ == c["abort_skip"] + 1:
+                                stop_ = True
+                                break
+                        done[id(me_)].append(e_)
+                if stop_:
+                    break
+                if oe is not None and e_ % c["obs_period"] == 0:
+                    done[id(oe)].append(e_)
+            require(raised == stop_, "metric-exception-swallowed", f"a metric raised at epoch {e_star}: fit() {'did not raise' if stop_ else 'raised although no metric failed'}")
+            verify_metrics(None, rows_before, per=done)
+            verify_obs(None, rows_before, per=done)
+            for m in mes:
+                m[3].clear_history()
+            if oe is not None:
+                oe.clear_history()
+            labels.append("after_aborted_evaluation" if raised else "abort_not_triggered")
+        ran = one_run(c["se"], c["E"])
+        planned = list(range(c["se"], c["E"] + 1))
+        if c["stop_at"] is not None:
+            planned = [e for e in planned if e <= max(c["stop_at"], c["se"])][: None]
+        require(ran == planned, "harness:epochs", f"run covered epochs {ran}, expected {planned}")   # C12's business; a sanity anchor here
+        cut = len(ran) < len(range(c["se"], c["E"] + 1))
+
         verify_metrics(ran, rows_before)
         verify_obs(ran, rows_before)
         if saver:
